@@ -252,6 +252,7 @@ def _joins(model, rep):
     # ---- extrusion: layers (symbolic run with three levels)
     _extrusion(model, rep)
     _join_coordinates(model, rep)
+    _higher_order_surgery(model, rep)
 
 
 def _join_coordinates(model, rep):
@@ -318,6 +319,75 @@ def _join_coordinates(model, rep):
        f"merged whatever the size of the mesh (a 10 nm mesh in SI units "
        f"collapses: 60 of 64 cells get zero area)" if bad else "",
        bad[0][0].lineno if bad else fn.lineno)
+
+
+def _higher_order_surgery(model, rep):
+    """Mesh._reix and Mesh._remove_duplicate_nodes rebuild the point array
+    from the *vertex* numbers in t (p[:, np.unique(t)], np.unique over the
+    columns of p).  For the second-order classes the point array also holds
+    the mid-side / interior nodes (reached through dofs.element_dofs, not
+    through t) and for the DG classes one column per cell corner: the
+    surgery operations built on these two helpers return an object of the
+    same class whose point array has lost those nodes - no error until the
+    mesh is used (IndexError).  Every such operation must be overridden (or
+    refused) by the classes whose element has more than vertex DOFs."""
+    R4 = "C18-R4"
+    mcls = model.cls(MESH, "Mesh")
+    helpers = ("_reix", "_remove_duplicate_nodes")
+    ops = {}
+    for name, fn in mcls.methods.items():
+        if name in helpers or name == "trace":
+            # trace() builds a first-order mesh of another (lower-
+            # dimensional) class from facet vertices: vertex numbers are
+            # what it needs
+            continue
+        used = [c for c in walk_no_nested(fn.node) if isinstance(c, ast.Call)
+                and isinstance(c.func, ast.Attribute)
+                and c.func.attr in helpers]
+        if used:
+            ops[name] = fn
+    if len(ops) < 3:
+        raise AnalysisError(f"only {len(ops)} operations built on _reix / "
+                            f"_remove_duplicate_nodes found")
+    # classes whose element carries more than vertex DOFs
+    rich = []
+    for c in model.all_classes():
+        if not c.path.startswith("skfem/mesh/") or mcls not in c.mro():
+            continue
+        ea = c.attrs.get("elem")
+        if ea is None:
+            continue
+        ecl = [x for x in model.all_classes() if x.name == src(ea)
+               and x.path.startswith("skfem/element/")]
+        if not ecl:
+            continue
+
+        def count(attr, ecl=ecl):
+            a = ecl[0].find_attr(attr)
+            return int(a[1].value) if a and isinstance(
+                a[1], ast.Constant) and isinstance(a[1].value, int) else 0
+        if count("edge_dofs") + count("facet_dofs") + count(
+                "interior_dofs") > 0:
+            rich.append(c)
+    if len(rich) < 6:
+        raise AnalysisError(f"only {len(rich)} mesh classes with "
+                            f"higher-order / DG elements found")
+    for name, fn in sorted(ops.items()):
+        inherit = sorted(c.name for c in rich
+                         if c.find_method(name) is fn)
+        cons = f"Mesh.{name}:all-nodes-kept"
+        if not inherit:
+            rep.ok(R4, cons, "overridden by every class whose point array "
+                             "holds more than the vertices")
+        else:
+            rep.fail(R4, fn.path, f"Mesh.{name}", cons,
+                     f"{', '.join(inherit)} inherit Mesh.{name}, which "
+                     f"rebuilds the point array from the vertex numbers in "
+                     f"t: the mid-side / interior / per-corner nodes are "
+                     f"dropped, the result is an object of the same class "
+                     f"with too few points - MeshTri2().refined(1)"
+                     f".restrict(...) has 6 points for 4 quadratic cells "
+                     f"and every use raises IndexError", fn.lineno)
 
 
 def _extrusion(model, rep):
